@@ -106,7 +106,7 @@ func newCollector(props []string) *Collector {
 }
 
 const (
-	maxFailures      = 120 // per property
+	maxFailures      = 120 // per property and class
 	maxPerBucket     = 2
 	maxPerPropKind   = 40
 	maxSamplesStored = 5
@@ -155,11 +155,11 @@ func (c *Collector) fail(f Failure) {
 	}
 	g.FailuresTotal++
 	g.FailuresByKind[f.Kind]++
-	bucket := f.Property + "|" + f.Kind + "|" + f.Package + "|" + f.Def
-	pk := f.Property + "|" + f.Kind
+	bucket := f.Property + "|" + f.Kind + "|" + f.Package + "|" + f.Def + "|" + f.Class // a differently classed case is never crowded out
+	pk := f.Property + "|" + f.Kind + "|" + f.Class
 	// bounded per property, never globally: a property checked late (C09 is compared at the very end) must
 	// not lose its failing cases because earlier properties filled the list
-	pp := "prop|" + f.Property
+	pp := "prop|" + f.Property + "|" + f.Class
 	if c.perBucket[bucket] >= maxPerBucket || c.perBucket[pk] >= maxPerPropKind || c.perBucket[pp] >= maxFailures {
 		return
 	}
